@@ -10,12 +10,23 @@ def parseCps (f : String) : Str :=
 def showCps (s : Str) : String :=
   if s.isEmpty then "-" else " ".intercalate (s.map toString)
 
+/-- A numeric field.  A malformed field (`None`, `-1` where a natural number is expected, an empty field) used to be read
+as 0 silently (audit item 35): now it panics with a `BadArg` message; the driver loop (`Driver.lean`) catches the message
+and answers `err:BadArg` for that operation line instead of the handler's answer (the value continued with is 0, as
+before, but nobody sees the result).  A handler that really wants "missing = 0" must say so: `parseNatD` / `parseIntD`. -/
 def parseInt (f : String) : Int :=
   match f.toInt? with
   | some i => i
-  | none => 0
+  | none => panic! s!"BadArg: malformed integer field {f.quote}"
 
-def parseNat (f : String) : Nat := (f.toNat?).getD 0
+def parseNat (f : String) : Nat :=
+  match f.toNat? with
+  | some n => n
+  | none => panic! s!"BadArg: malformed natural-number field {f.quote}"
+
+/-- explicit defaults (optional fields) -/
+def parseIntD (f : String) (d : Int := 0) : Int := (f.toInt?).getD d
+def parseNatD (f : String) (d : Nat := 0) : Nat := (f.toNat?).getD d
 
 def showBool (b : Bool) : String := if b then "1" else "0"
 def parseBool (f : String) : Bool := f == "1"
